@@ -12,7 +12,9 @@
     names whose key is in the tree as of the last commit; `visSub` is the iteration's filter;
   * `ResetAfterSale` stamps `LastUpdateHeight` with the *version*, the other handlers with the
     header height; the parent's `SetLastUpdatedHeight` in deleteSub is never stored;
-  * `Int64()` truncations and int64 additions are `wrap64`;
+  * the block count a payment buys goes through `blocksFor` (action/ons/create.go): the quotient
+    is refused ("Buying price too high") unless it and `from + quotient` fit an int64 and
+    `from ≥ 0`, so the int64 additions that follow cannot wrap and are plain integer additions;
   * a zero per-block fee divides by zero (Go panic) = `Err.crash`;
   * DeliverTx calls `handler.Validate` before `ProcessDeliver` (app/controller.go txDeliverer):
     `validate` ports its state-independent checks (signer field = address of the signing key,
@@ -120,6 +122,7 @@ def Tx.payCur : Tx → Option Cur
 
 inductive Err
   | priceTooLow      -- create: price ≤ base; sale / renew: price ≤ perBlock; expired purchase: offering < base
+  | priceTooHigh     -- blocksFor: the bought block count (added to the height it extends) leaves int64
   | exists_          -- create: ErrDomainExists
   | debit            -- MinusFromAddress failed (handler)
   | badName          -- create: verifyDomainName
@@ -154,8 +157,14 @@ deriving DecidableEq, Repr
 
 /-! ## integers -/
 
-/-- `big.Int.Int64()` / int64 addition: two's-complement truncation -/
-def wrap64 (x : Int) : Int := (x + 9223372036854775808) % 18446744073709551616 - 9223372036854775808
+def maxInt64 : Int := 9223372036854775807
+def minInt64 : Int := -9223372036854775808
+
+/-- action/ons/create.go `blocksFor amount pricePerBlock from` (callers have excluded a zero price):
+    `none` is the refusal "Buying price too high" -/
+def blocksFor (amount perBlock «from» : Int) : Option Int :=
+  let q := amount / perBlock
+  if q < minInt64 ∨ maxInt64 < q ∨ «from» < 0 ∨ maxInt64 - «from» < q then none else some q
 
 /-! ## names (data/ons/types.go) -/
 
@@ -222,7 +231,7 @@ def expiredAt (d : Domain) (h : Int) : Bool := decide (d.expire < h)
 /-- `Domain.IsActive` -/
 def activeAt (d : Domain) (h : Int) : Bool := d.active && decide (h < d.expire)
 
-/-- `calculateExpiry` without the guard (callers are past it) -/
+/-- what a payment buys: `(payment − base) / perBlock` blocks -/
 def blocksBought (payment base perBlock : Int) : Int := (payment - base) / perBlock
 
 /-! ## the handlers -/
@@ -252,7 +261,9 @@ def runCreate (env : Env) (s : St) (owner benef : Addr) (name : Name) (uri : Str
     else
       if price < env.opts.base then .error .priceTooLow else
       if env.opts.perBlock = 0 then .error .crash else
-      mk (wrap64 (env.version + wrap64 (blocksBought price env.opts.base env.opts.perBlock)))
+      match blocksFor (price - env.opts.base) env.opts.perBlock env.version with
+      | none => .error .priceTooHigh
+      | some q => mk (env.version + q)
 
 /-- action/ons/update.go runUpdate -/
 def runUpdate (env : Env) (s : St) (owner benef : Addr) (name : Name) (active : Bool) (uri : String)
@@ -286,7 +297,7 @@ def runSale (env : Env) (s : St) (owner : Addr) (name : Name) (price : Int) (cur
 
 /-- `Domain.ResetAfterSale` -/
 def resetAfterSale (d : Domain) (buyer account : Addr) (nBlocks cur : Int) : Domain :=
-  { d with benef := account, expire := wrap64 ((if cur < d.expire then d.expire else cur) + nBlocks),
+  { d with benef := account, expire := (if cur < d.expire then d.expire else cur) + nBlocks,
            owner := buyer, salePrice := none, lastUpdate := cur, active := true, uri := "", onSale := false }
 
 /-- action/ons/purchase.go runPurchaseDomain -/
@@ -314,11 +325,15 @@ def runPurchase (env : Env) (s : St) (buyer account : Addr) (name : Name) (offer
         | some b0 =>
           let b1 := credit b0 (d.owner, cur) sale
           if env.opts.perBlock = 0 then .error .crash else
-          finish b1 (offering - sale) (wrap64 ((offering - sale) / env.opts.perBlock))
+          match blocksFor (offering - sale) env.opts.perBlock d.expire with
+          | none => .error .priceTooHigh
+          | some q => finish b1 (offering - sale) q
     else
       if offering < env.opts.base then .error .priceTooLow else
       if env.opts.perBlock = 0 then .error .crash else
-      finish s.bals offering (wrap64 (blocksBought offering env.opts.base env.opts.perBlock))
+      match blocksFor (offering - env.opts.base) env.opts.perBlock env.version with
+      | none => .error .priceTooHigh
+      | some q => finish s.bals offering q
 
 /-- action/ons/send.go runDomainSend -/
 def runSend (env : Env) (s : St) (sender : Addr) (name : Name) (amount : Int) (cur : Cur) : Except Err St :=
@@ -349,10 +364,13 @@ def runRenew (env : Env) (s : St) (owner : Addr) (name : Name) (price : Int) (cu
     | some b1 =>
       if price < env.opts.perBlock then .error .priceTooLow else
       if env.opts.perBlock = 0 then .error .crash else
-      let e' := wrap64 (d.expire + wrap64 (price / env.opts.perBlock))
-      let d' : Domain := { d with expire := e', lastUpdate := env.height }
-      .ok { s with recs := mapSel (visSub s.tree name) (fun x => { x with expire := e' }) (upsert s.recs name d'),
-                   bals := b1, pool := s.pool + price }
+      match blocksFor price env.opts.perBlock d.expire with
+      | none => .error .priceTooHigh
+      | some q =>
+        let e' := d.expire + q
+        let d' : Domain := { d with expire := e', lastUpdate := env.height }
+        .ok { s with recs := mapSel (visSub s.tree name) (fun x => { x with expire := e' }) (upsert s.recs name d'),
+                     bals := b1, pool := s.pool + price }
 
 /-- action/ons/deleteSub.go runDeleteSub -/
 def runDeleteSub (env : Env) (s : St) (owner : Addr) (name : Name) : Except Err St :=
